@@ -2,6 +2,7 @@ import SamVerif.Lemmas.Useful
 import SamVerif.Lemmas.UsefulTerm
 import SamVerif.Lemmas.UsefulNorm
 import SamVerif.Lemmas.UsefulSem
+import SamVerif.Lemmas.UsefulErr
 import SamVerif.Generated.C07Tuples
 /-!
 # C07 — Exhaustiveness and usefulness analysis of patterns is exact
@@ -935,6 +936,99 @@ theorem object_pattern_columns (sig : Sig) (w : Bool) (t : Nat) (fs : List (Nat 
     rw [normObject_other sig w fs ps names _ j hk hne]
     simp [wilds, hj]
 
+/-! ### No fragment left: every source pattern is either in the domain of the semantics theorem or rejected
+
+`shape` is the encoding invariant of `SPat.object` (as many field names as sub-patterns — the parser
+and the protocol pair them). -/
+
+/-- **Dichotomy**: a source pattern is `swf` (then `normalize_sem`: its abstract node matches exactly
+the values it matches) or `check_matching_pattern` reports a diagnostic for it (the program is
+rejected whatever the exhaustiveness verdict). -/
+theorem source_pattern_dichotomy (sig : Sig) (w : Bool) (p : SPat) (t : Nat) (hs : shape p = true) :
+    swf sig w p t = true ∨ (normalize sig w p (some t)).err = true := by
+  cases h : swf sig w p t with
+  | true => exact Or.inl rfl
+  | false => exact Or.inr (not_swf_err sig w p t hs h)
+
+/-- **C07 for every `match` / `let`** (no well-formedness hypothesis on the arms): either some arm
+makes the checker report a diagnostic of its own (rejected), or the verdict of the exhaustiveness
+check is exact in source-level terms. -/
+theorem checker_match_total_src (sig : Sig) (cx : Cx) (hcx : CxOk sig cx) (hnd : SigNodup sig)
+    (hinh : Inhabited' sig) (srcArms : List SPat) (t : Nat) (hsh : ∀ p ∈ srcArms, shape p = true) :
+    (∃ p ∈ srcArms, (normalize sig true p (some t)).err = true) ∨
+    (let arms := srcArms.map (fun p => (normalize sig true p (some t)).pat)
+     ∃ res, incompleteCounterexample cx arms = some res ∧
+      (res = none ↔ ∀ v, hasTy sig v t = true → ∃ p ∈ srcArms, smatch sig p t v = true) ∧
+      (∀ d, res = some d → patTy sig d t = true ∧ (∃ v, hasTy sig v t = true ∧ pmatch d v = true) ∧
+        ∀ v, hasTy sig v t = true → pmatch d v = true → ∀ p ∈ srcArms, smatch sig p t v = false)) := by
+  by_cases h : ∃ p ∈ srcArms, (normalize sig true p (some t)).err = true
+  · exact Or.inl h
+  · refine Or.inr (checker_match_decided sig cx hcx hnd hinh srcArms t ?_)
+    intro p hp
+    rcases source_pattern_dichotomy sig true p t (hsh p hp) with hw | he
+    · exact hw
+    · exact absurd ⟨p, hp, he⟩ h
+
+/-- the same for `if let` -/
+theorem checker_iflet_total_src (sig : Sig) (cx : Cx) (hcx : CxOk sig cx) (hinh : Inhabited' sig)
+    (src : SPat) (t : Nat) (hsh : shape src = true) :
+    (normalize sig false src (some t)).err = true ∨
+    (let p := (normalize sig false src (some t)).pat
+     ∃ u, isAdditionalPatternUseful cx [p] .wild = some u ∧
+      (u = false ↔ ∀ v, hasTy sig v t = true → smatch sig src t v = true)) := by
+  rcases source_pattern_dichotomy sig false src t hsh with hw | he
+  · exact Or.inr (checker_iflet_decided sig cx hcx hinh src t hw)
+  · exact Or.inl he
+
+/-- **Scrutinee of type-parameter type**: when the parameter resolves (innermost binder) to the bound
+`t`, the exact theorem holds for the bounding class's declaration. -/
+theorem checker_match_total_tparam (sig : Sig) (cx : Cx) (hcx : CxOk sig cx) (hnd : SigNodup sig)
+    (hinh : Inhabited' sig) (isMethod : Bool) (classParams memberParams : TParams) (name t : Nat)
+    (hr : scrutineeType (scopeOf isMethod classParams memberParams) (.tparam name) = some t)
+    (srcArms : List SPat) (hsh : ∀ p ∈ srcArms, shape p = true) :
+    (∃ p ∈ srcArms,
+      (normalize sig true p (scrutineeType (scopeOf isMethod classParams memberParams) (.tparam name))).err = true) ∨
+    (let arms := srcArms.map (fun p =>
+        (normalize sig true p (scrutineeType (scopeOf isMethod classParams memberParams) (.tparam name))).pat)
+     ∃ res, incompleteCounterexample cx arms = some res ∧
+      (res = none ↔ ∀ v, hasTy sig v t = true → ∃ p ∈ srcArms, smatch sig p t v = true)) := by
+  rw [hr]
+  rcases checker_match_total_src sig cx hcx hnd hinh srcArms t hsh with h | h
+  · exact Or.inl h
+  · obtain ⟨res, h1, h2, _⟩ := h
+    exact Or.inr ⟨res, h1, h2⟩
+
+/-- `exhaustive_iff`, in the words of the property: the counterexample search returns nothing exactly
+when no well-typed value vector is left unmatched (full pattern language: nested constructors,
+or-patterns, structs / tuples of any width, enums with any number of variants ≥ 1). -/
+theorem exhaustive_iff_no_unmatched_value (sig : Sig) (cx : Cx) (hcx : CxOk sig cx) (hnd : SigNodup sig)
+    (hinh : Inhabited' sig) (fuel : Nat) (P : Matrix) (n : Nat) (ts : List Nat) (res : Option Row)
+    (hP : matrixTy sig P ts = true) (hn : ts.length = n) (h : cexF cx fuel P n = some res) :
+    (res = none ↔ ¬ ∃ vs, hasTys sig vs ts = true ∧ ∀ r ∈ P, pmatchAll r vs = false) := by
+  rw [exhaustive_iff sig cx hcx hnd hinh fuel P n ts res hP hn h]
+  constructor
+  · rintro hall ⟨vs, hvs, hun⟩
+    obtain ⟨r, hr, hm⟩ := hall vs hvs
+    rw [hun r hr] at hm; cases hm
+  · intro hno vs hvs
+    apply Classical.byContradiction
+    intro hc
+    apply hno
+    refine ⟨vs, hvs, fun r hr => ?_⟩
+    cases hm : pmatchAll r vs with
+    | false => rfl
+    | true => exact absurd ⟨r, hr, hm⟩ hc
+
+/-- the printed counterexample is a genuine unmatched value: it denotes a well-typed value vector, and
+every well-typed vector it denotes is matched by no row. -/
+theorem counterexample_is_unmatched (sig : Sig) (cx : Cx) (hcx : CxOk sig cx) (hnd : SigNodup sig)
+    (hinh : Inhabited' sig) (fuel : Nat) (P : Matrix) (n : Nat) (ts : List Nat) (d : Row)
+    (hP : matrixTy sig P ts = true) (hn : ts.length = n) (h : cexF cx fuel P n = some (some d)) :
+    (∃ vs, hasTys sig vs ts = true ∧ pmatchAll d vs = true ∧ ∀ r ∈ P, pmatchAll r vs = false) ∧
+    (∀ vs, hasTys sig vs ts = true → pmatchAll d vs = true → ∀ r ∈ P, pmatchAll r vs = false) :=
+  ⟨counterexample_denotes_unmatched sig cx hcx hnd hinh fuel P n ts d hP hn h,
+   (cex_some_sound sig cx hcx hnd fuel P n ts d hP hn h).2.2⟩
+
 /-! ### Every hypothesis decided by computation (what a replayed case certifies)
 
 For a finite type table, `cxOkCheck`, `nodupCheck`, `rankCheck` and `swf` are executable; the driver
@@ -1069,6 +1163,9 @@ example : (normalize (fun t => if t = 4 then .enum 2 [(0, [3])] else sigEx t) tr
 example : scrutineeType (scopeOf false [(0, some 0)] [(0, some 1)]) (.tparam 0) = some 1 := by decide
 -- in a method of `Box<T: Narrow>` with its own `U: Wide`, `T` is the class's (bound 0 = Narrow)
 example : scrutineeType (scopeOf true [(0, some 0)] [(1, some 1)]) (.tparam 0) = some 0 := by decide
+-- dichotomy: `(None, _, _)` on the 2-field `Pair` is outside `swf`, and the checker reports an error for it
+example : swf sigEx true (.tuple [.variant 0 [], .wild, .wild]) 3 = false ∧
+    (normalize sigEx true (.tuple [.variant 0 [], .wild, .wild]) (some 3)).err = true := by decide
 -- fuel-free, both directions, on the example signature
 example : ∃ n res, (∀ m, n ≤ m → incompleteCounterexampleF cxEx m [pNone, pSome .wild] = some res) ∧
     (res = none ↔ ∀ v, hasTy sigEx v 1 = true → ∃ a ∈ [pNone, pSome .wild], pmatch a v = true) := by
